@@ -156,6 +156,8 @@ def make_id_spec(spec):
             return lambda f: "autoincrement:" + f.seqid
         if name == "auto_const":
             return lambda f: "autoincrement:" + spec.get("base", "k")
+        if name == "auto_colon":
+            return lambda f: "autoincrement:" + f.seqid + ":" + f.featuretype
         if name == "name_or_none":
             def g(f):
                 try:
@@ -484,6 +486,37 @@ def op_read(st, op):
     return {"out": out}
 
 
+def op_interleave(st, op):
+    """Several lazy result generators alive on ONE handle, advanced one item at a time in a
+    given schedule (the interleaving a caller produces by nesting or zipping iterations)."""
+    db = st.h[op["h"]]
+    gens = []
+    for q in op["queries"]:
+        kw = dict(q.get("kw") or {})
+        for k in ("featuretype", "order_by", "limit", "region"):
+            if isinstance(kw.get(k), list):
+                kw[k] = tuple(kw[k])
+        a = [tuple(x) if isinstance(x, list) else x for x in (q.get("args") or [])]
+        gens.append(iter(getattr(db, q["m"])(*a, **kw)))
+    outs = [[] for _ in gens]
+    done = [False] * len(gens)
+
+    def step(i):
+        if done[i]:
+            return
+        try:
+            outs[i].append(next(gens[i]).id)
+        except StopIteration:
+            done[i] = True
+
+    for i in op["schedule"]:
+        step(i % len(gens))
+    for i in range(len(gens)):
+        while not done[i]:
+            step(i)
+    return {"outs": outs}
+
+
 def op_merge(st, op):
     """db.merge over a selection; outputs kept for re-merging."""
     db = st.h[op["h"]]
@@ -594,6 +627,7 @@ OPS = {
     "get": op_get,
     "read": op_read,
     "merge": op_merge,
+    "interleave": op_interleave,
     "merge_all": op_merge_all,
     "dataiter": op_dataiter,
     "inspect": op_inspect,
